@@ -219,16 +219,20 @@ SPECS = {
     # names that look generated but are not what the generator would produce (zero, leading zero, the next number taken)
     "tablesgen": Spec([None, "Table 0", "Table 01", "Table 2"], ["Table 0"], kinds=("table",)),
     "sheetsgen": Spec([None, "Sheet 0", "Sheet 01", "Sheet 2"], ["Sheet 0"], kinds=("sheet",)),
+    # names on which str.lower() and str.casefold() differ (sharp s, ligature): an exact duplicate and a case variant
+    # of such a name must be refused like any other duplicate, and a lookup must find it
+    "tablesuni": Spec([None, "Straße", "straße", "ﬁn"], ["Straße"], kinds=("table",)),
+    "sheetsuni": Spec([None, "Straße", "straße", "ﬁn"], ["Straße"], kinds=("sheet",)),
 }
 
 
 def plan(tier):
     if tier == "quick":
         return [("wide", ["fresh:", "fixture:issue-77.numbers"], 2, True), ("tables3", ["fresh:"], 3, True), ("sheets3", ["fresh:"], 3, True), ("tablesgen", ["fresh:"], 3, True), ("sheetsgen", ["fresh:"], 3, True),
-                ("min", ["fixture:test-1.numbers"], 2, True)]
+                ("tablesuni", ["fresh:"], 2, True), ("sheetsuni", ["fresh:"], 2, True), ("min", ["fixture:test-1.numbers"], 2, True)]
     return [("full", ["fresh:", "fixture:issue-77.numbers", "fixture:test-1.numbers"], 2, True), ("wide", ["fresh:", "fixture:issue-77.numbers"], 3, True),
             ("tables3", ["fresh:", "fixture:issue-77.numbers"], 4, True), ("sheets3", ["fresh:"], 4, True), ("tablesgen", ["fresh:"], 4, True), ("sheetsgen", ["fresh:"], 4, True),
-            ("min", ["fresh:"], 4, True)]
+            ("tablesuni", ["fresh:"], 3, True), ("sheetsuni", ["fresh:"], 3, True), ("min", ["fresh:"], 4, True)]
 
 
 def main():
